@@ -22,6 +22,9 @@ EDITS = [
   "tmp_inv_md.extend([invaxis_metadata[i] for i in missing_ids])", "tmp_inv_md.extend([None] * len(missing_ids))"),
  ('union-not-updated', 'semantic', 'the union of the other axis is updated from the concatenation axis ids',
   "invaxis_ids.update(table_invaxis)", "invaxis_ids.update(table_axis_ids)"),
+ ('sample-arm-ctor', 'semantic', "the padded block's constructor call in the axis == 'sample' arm gets its two metadata arguments swapped",
+  "tmp_table = self.__class__(tmp_mat, tmp_inv_ids, tmp_ids,\n                                               tmp_inv_md, tmp_md)",
+  "tmp_table = self.__class__(tmp_mat, tmp_inv_ids, tmp_ids,\n                                               tmp_md, tmp_inv_md)"),
  ('rename-local', 'preserving', 'local table_axis_ids renamed',
   "            table_axis_ids = table.ids(axis=axis)\n", "            tids = table.ids(axis=axis)\n"),
  ('swap-inits', 'preserving', 'the two independent set() initialisations swapped',
